@@ -1668,8 +1668,31 @@ func (c *FnCtx) execRange(st *State, x *ast.RangeStmt) *State {
 			keyObj = c.info.ObjectOf(id)
 		}
 	}
+	idxName := fmt.Sprintf("idx%d", ord)
 	if keyObj == nil {
-		keyObj = types.NewVar(x.Pos(), c.pkg.Types, fmt.Sprintf("idx%d", ord), types.Typ[types.Int])
+		keyObj = types.NewVar(x.Pos(), c.pkg.Types, idxName, types.Typ[types.Int])
+		// the loop had a named key when the contracts were written (`for i := range xs` rewritten
+		// as `for _, x := range xs`): clauses naming it mean the iteration index
+		if k := c.baseRangeKey[ord]; k != "" && !c.curLocals[k] && c.inlineDepth == 0 {
+			if c.renames == nil {
+				c.renames = map[string]string{}
+			}
+			c.renames[k] = idxName
+		}
+	} else if c.inlineDepth == 0 {
+		if c.rangeKeys == nil {
+			c.rangeKeys = map[int]string{}
+		}
+		c.rangeKeys[ord] = keyObj.Name()
+		// and the other way round: clauses written for a key-less loop use idxN
+		if !c.curLocals[idxName] {
+			if c.renames == nil {
+				c.renames = map[string]string{}
+			}
+			if _, ok := c.renames[idxName]; !ok {
+				c.renames[idxName] = keyObj.Name()
+			}
+		}
 	}
 	st.env[keyObj] = Val{K: KInt, S: "0", T: types.Typ[types.Int]}
 	if ls != nil {
